@@ -81,6 +81,7 @@ func RunReplay(t *testing.T, harnesses map[string]func()) {
 		out("VERIF-DONE")
 		return
 	}
+	checkAlloc()
 	// leak check: give library goroutines a moment to wind down
 	leaked := true
 	for i := 0; i < 200; i++ {
@@ -227,8 +228,26 @@ func AtomicEnd()   {}
 func GoEnv(name string, f func()) { go f() }
 
 // AllocLimit installs the allocation monitor: every make() whose size depends on
-// symbolic input must request at most n elements.
-func AllocLimit(n int) {}
+// symbolic input must request at most n elements. Natively the bytes allocated
+// from this point to the end of the harness are measured instead.
+func AllocLimit(n int) {
+	var ms runtime.MemStats
+	runtime.ReadMemStats(&ms)
+	allocLimit, allocBase = uint64(n), ms.TotalAlloc
+}
+
+var allocLimit, allocBase uint64
+
+func checkAlloc() {
+	if allocLimit == 0 {
+		return
+	}
+	var ms runtime.MemStats
+	runtime.ReadMemStats(&ms)
+	if ms.TotalAlloc-allocBase > allocLimit+(8<<20) {
+		out("VERIF-ASSERT-FAIL alloc-bounded")
+	}
+}
 
 // KnownPanic attributes a panic with the given label to a recorded finding.
 func KnownPanic(label, finding string) {}
